@@ -274,6 +274,35 @@ Theorem each_limiter_never_stuck : forall threads sched k n,
 Proof. exact each_limiter_never_stuck_all. Qed.
 Print Assumptions each_limiter_never_stuck.
 
+(* THE CALLER'S CONTEXT IS NOT A STORE FAILURE.  One call whose context is done before the call
+   (TAllowC) or BECOMES done during the store call (TAllowD: go-redis returns ctx.Err() while the
+   request waits for a connection or sleeps before a retry; deadline or cancel; the script run or
+   not), on an instance that is on the shared bucket: refused, the instance untouched - no monitor,
+   still on the store; nothing changes at all unless the script had run (then the bucket is charged). *)
+Theorem caller_context_is_refused : forall c s i now n rescue ran t,
+  nth_error (tinsts s) i = Some t -> alive t = true ->
+  tstep c s (TAllowC i now n rescue) = (s, TR false true false) /\
+  (let s' := fst (tstep c s (TAllowD i now n rescue ran)) in
+   snd (tstep c s (TAllowD i now n rescue ran)) = TR false true ran /\
+   tinsts s' = tinsts s /\ tdown s' = tdown s /\ (ran = false -> s' = s)).
+Proof. exact caller_context_step_all. Qed.
+Print Assumptions caller_context_is_refused.
+
+(* RESCUE MODE ONLY AFTER A STORE FAILURE.  n instances and ANY history in which the store never
+   fails ([healthy]: never down, no forged reply, no breaker cut) - calls by any instances with any
+   contexts (live, done before, becoming done during the store call with the script run or not),
+   concurrent calls, clock advances, monitor ticks: no call makes an instance fall back, and at the
+   end every instance is on the shared bucket with no monitor.  (The joint bound for such histories is
+   token_joint_bound: TAllowD charges the bucket at most, it never grants.)
+   The variant that takes an expired deadline for a store failure: Pinned.deadline_is_store_failure_refuted. *)
+Theorem caller_context_never_starts_rescue : forall c incl base n ops,
+  1 <= rate c -> 0 <= burst c -> ktokens c <> kts c -> 0 <= base ->
+  twf base ops = true -> forallb healthy ops = true ->
+  Forall no_fallback (trun c (tinit incl base n) ops) /\
+  tinsts (tfinal c (tinit incl base n) ops) = repeat (mkT true false) n.
+Proof. exact caller_context_never_starts_rescue_all. Qed.
+Print Assumptions caller_context_never_starts_rescue.
+
 (* ---- non-vacuity ---- *)
 Definition ex_cfg := mkCfg 5 2 (BStr "{tk}.tokens") (BStr "{tk}.ts").   (* 2*burst < rate *)
 Definition ex_ops : list top :=
